@@ -69,6 +69,7 @@ S0(K) == [K |-> K,
        allocok |-> [t \in Thr |-> FALSE],
        tstop |-> [t \in Thr |-> 0],
        fid |-> [t \in Thr |-> 0],
+       fseen |-> [t \in Thr |-> 0],      \* flush_processed_id as this thread last read it (under the message lock)
        \* ghosts
        enq |-> <<>>, applied |-> <<>>, synced |-> 0, maxret |-> 0,
        need |-> [t \in Thr |-> 0], enqidx |-> [t \in Thr |-> 0],
@@ -155,8 +156,10 @@ Return(S, t, rc) ==
                         !.maxret = IF rc = 0 THEN Max(@, S.enqidx[t]) ELSE @]
     IN BeginOp(S1, t)
 
-FlushPoll(S, t) ==
-    IF S.fproc < S.fid[t] THEN Goto([S EXCEPT !.wake[t] = S.now + S.K.pollSleep], t, "sleep", "", 0, "f_sleep")
+\* jls_twr_flush polls flush_processed_id: each read takes the message lock (flush_processed_id_get)
+FlushPoll(S, t) == Goto(S, t, "lock", "M", 0, "f_pLockM")
+FlushDecide(S, t) ==
+    IF S.fseen[t] < S.fid[t] THEN Goto([S EXCEPT !.wake[t] = S.now + S.K.pollSleep], t, "sleep", "", 0, "f_sleep")
     ELSE Return(S, t, 0)
 
 SendDone(S, t, rc) ==
@@ -170,8 +173,8 @@ SendDone(S, t, rc) ==
 Process(S) ==
     LET m == S.q[1] IN
     IF m.kind = "C" THEN [S EXCEPT !.quit = TRUE]
-    ELSE IF m.kind = "L" THEN
-        [S EXCEPT !.applied = Append(@, m.key), !.synced = Len(S.applied) + 1, !.fproc = Max(@, m.d),
+    ELSE IF m.kind = "L" THEN        \* jls_wr_flush; the processed id is published under the message lock (k_fLockM)
+        [S EXCEPT !.applied = Append(@, m.key), !.synced = Len(S.applied) + 1,
                   !.out = Append(@, <<"Apply", 1, "-", "L">>)]
     ELSE [S EXCEPT !.applied = Append(@, m.key), !.out = Append(@, <<"Apply", 1, m.key, m.kind>>),
                    !.bad = @ \cup (IF S.wrclosed THEN {"applied after close"} ELSE {})]
@@ -231,6 +234,8 @@ Local(S, t) ==
       \* ---- jls_twr_flush
       [] pc = "f_lockM" -> Goto([S EXCEPT !.fid[t] = S.fsend + 1, !.fsend = S.fsend + 1], t, "unlock", "M", 0, "f_unlockM")
       [] pc = "f_unlockM" -> BeginSend(S, t)
+      [] pc = "f_pLockM" -> Goto([S EXCEPT !.fseen[t] = S.fproc], t, "unlock", "M", 0, "f_pUnlockM")
+      [] pc = "f_pUnlockM" -> FlushDecide(S, t)
       [] pc = "f_sleep" -> Goto(S, t, "slept", "", 0, "f_slept")
       \* jls_now() >= t_stop with t_stop = t_start + JLS_TIME_MILLISECOND * timeout: JLS_TIME_MILLISECOND is rounded
       \* up (1073742 for 1073741.824), so at exactly timeout ms the deadline has not passed yet
@@ -258,7 +263,10 @@ Local(S, t) ==
             IF S.msg THEN Goto(S, 1, "lock", "P", 0, "k_lockP")
             ELSE IF S.quit THEN Goto(S, 1, "exit", "", 0, "exit")
             ELSE Goto(S, 1, "lock", "E", 0, "k_lockE")
-      [] pc = "k_lockP" -> Goto(Process(S), 1, "unlock", "P", 0, "k_unlockP")
+      [] pc = "k_lockP" -> IF S.q[1].kind = "L" THEN Goto(Process(S), 1, "lock", "M", 0, "k_fLockM")
+                           ELSE Goto(Process(S), 1, "unlock", "P", 0, "k_unlockP")
+      [] pc = "k_fLockM" -> Goto([S EXCEPT !.fproc = Max(@, S.q[1].d)], 1, "unlock", "M", 0, "k_fUnlockM")
+      [] pc = "k_fUnlockM" -> Goto(S, 1, "unlock", "P", 0, "k_unlockP")
       [] pc = "k_unlockP" -> Goto(S, 1, "lock", "M", 0, "k_lockM")
       [] OTHER -> S
 
